@@ -148,7 +148,8 @@ def run(ctx):
             argv = ["-w", expr]
         else:
             with open(wfile, "wb") as fh:
-                body = b"".join(hlgen.render([w], []) + b"\n" for w in t)
+                # lines may be indented by blanks and tabs (they are stripped), the words themselves are unchanged
+                body = b"".join(rr.choice([b"", b"", b" ", b"  ", b"\t \t", b"     "]) + hlgen.render([w], []) + rr.choice([b"", b"", b" ", b"  \t"]) + b"\n" for w in t)
                 fh.write(body[:-1] if rr.chance(1, 2) else body)       # the last line with and without its newline
             argv = ["-w", "^" + wfile] if how == "^file" else []
             if how == "WCOLL":
